@@ -151,4 +151,53 @@ theorem sortAsc_pairwise (l : List Nat) : (sortAsc l).Pairwise (· ≤ ·) := by
   | nil => simp
   | cons x t ih => simp only [List.foldr_cons]; exact insertAsc_pairwise x _ ih
 
+/-! ### permutation invariance (Go map iteration order) -/
+
+theorem any_perm {α : Type} {l l' : List α} (h : l'.Perm l) (f : α → Bool) : l'.any f = l.any f := by
+  rw [Bool.eq_iff_iff]
+  simp only [List.any_eq_true]
+  constructor
+  · rintro ⟨x, hx, hf⟩; exact ⟨x, h.mem_iff.mp hx, hf⟩
+  · rintro ⟨x, hx, hf⟩; exact ⟨x, h.mem_iff.mpr hx, hf⟩
+
+theorem mem_lookupMap {α : Type} {m : List (Nat × α)} (hn : (keys m).Nodup) {k : Nat} {a : α}
+    (h : (k, a) ∈ m) : lookupMap m k = some a := by
+  induction m with
+  | nil => simp at h
+  | cons p t ih =>
+    unfold keys at hn
+    simp only [List.map_cons, List.nodup_cons] at hn
+    unfold lookupMap
+    simp only [List.find?_cons]
+    rcases List.mem_cons.mp h with rfl | ht
+    · simp
+    · have hk : k ∈ t.map (·.1) := List.mem_map.mpr ⟨(k, a), ht, rfl⟩
+      have hne : (p.1 == k) = false := by
+        simp only [beq_eq_false_iff_ne, ne_eq]
+        intro he; exact hn.1 (he ▸ hk)
+      simp only [hne]
+      exact ih hn.2 ht
+
+theorem lookupMap_perm {α : Type} {m m' : List (Nat × α)} (h : m'.Perm m) (hn : (keys m).Nodup) (k : Nat) :
+    lookupMap m' k = lookupMap m k := by
+  have hn' : (keys m').Nodup := by
+    unfold keys at hn ⊢
+    exact (h.map (fun p => p.1)).symm.nodup hn
+  cases hm : lookupMap m k with
+  | some a => exact mem_lookupMap hn' (h.mem_iff.mpr (lookupMap_some_mem hm))
+  | none =>
+    cases hm' : lookupMap m' k with
+    | none => rfl
+    | some a =>
+      have := mem_lookupMap hn (h.mem_iff.mp (lookupMap_some_mem hm'))
+      rw [hm] at this; cases this
+
+theorem maxOf_perm {l l' : List Nat} (h : l'.Perm l) : maxOf l' = maxOf l := by
+  by_cases hl : l = []
+  · subst hl; rw [h.eq_nil]
+  · have hl' : l' ≠ [] := by intro he; apply hl; rw [he] at h; exact h.symm.eq_nil
+    have h1 := maxOf_ge l' (maxOf l) (h.mem_iff.mpr (maxOf_mem l hl))
+    have h2 := maxOf_ge l (maxOf l') (h.mem_iff.mp (maxOf_mem l' hl'))
+    omega
+
 end GV.Proofs.Handshake
